@@ -219,3 +219,55 @@ def bare_eoc(d: int, dbl: bool, drop: bool) -> str:
     if abs(Fraction(caps[0].start) - s) > Fraction(1, 1024) or abs(Fraction(caps[0].end) - e) > Fraction(1, 1024):
         return "times"
     return ""
+
+
+def multi_position(npos: int, first_too: bool, clear: int, dbl: bool, drop: bool) -> str:
+    """
+    pre: 1 <= npos <= 3 and 0 <= clear <= 2
+    post: _ == ""
+    """
+    # a caption whose text sits at several separate screen positions is returned as several Caption objects:
+    # every one of them carries the caption's start and end (next EOC / erase / four-second default)
+    n = _c3(npos)
+    rows = (2, 8, 14)
+
+    def cap_words(k, tag):
+        ws = [R.ENM, R.RCL]
+        for j in range(k):
+            ws += [R.pac(rows[j], 4 * j)] + R.chars(tag + "abc"[j])
+        return ws
+    w1 = _dbl(cap_words(n if first_too else 1, "x") + [R.EOC], dbl)
+    w2 = _dbl(cap_words(n, "y") + [R.EOC], dbl)
+    k1 = len(w1) - (2 if dbl else 1)
+    k2 = len(w2) - (2 if dbl else 1)
+    lines = [(60, w1), (210, w2)]
+    e2 = None
+    if clear == 1:      # erased on a line of its own
+        wl = _dbl([R.EDM], dbl)
+        lines.append((330, wl))
+        e2 = _instant(330, 0, drop, 0)
+    elif clear == 2:    # replaced by a third caption
+        w3 = _dbl(cap_words(1, "z") + [R.EOC], dbl)
+        lines.append((330, w3))
+        e2 = _instant(330, len(w3) - (2 if dbl else 1), drop, 0)
+    doc = HEADER + "".join(_tc(f, drop) + "\t" + " ".join(ws) + "\n\n" for f, ws in lines)
+    s1, s2 = _instant(60, k1, drop, 0), _instant(210, k2, drop, 0)
+    if e2 is None:
+        e2 = s2 + 4000000
+    try:
+        caps = SCCReader().read(doc).get_captions("en-US")
+    except Exception as e:
+        return "reader raised " + type(e).__name__
+    want = [("x" + "abc"[j], s1, s2) for j in range(n if first_too else 1)] + [("y" + "abc"[j], s2, e2) for j in range(n)]
+    if clear == 2:
+        want.append(("za", e2, e2 + 4000000))
+    if len(caps) != len(want):
+        return "number of caption objects"
+    for c, (t, s, e) in zip(caps, want):
+        if c.get_text() != t:
+            return "text / order of the positioned parts"
+        if abs(Fraction(c.start) - s) > Fraction(1, 1024):
+            return "start of a positioned part"
+        if abs(Fraction(c.end) - e) > Fraction(1, 1024):
+            return "end of a positioned part (next caption / erase / four-second default)"
+    return ""
